@@ -20,6 +20,9 @@ def replay_grad_purity(inputs, obl):
         ('p::[1.0 2.0 3.0];n::0;f::{n::n+1;:[n>%d;.undefinedfn(1);+/x*x]}', 'f∇p'),
         ('p::[1.0 2.0 3.0];n::0;f::{n::n+1;:[n>%d;.undefinedfn(1);+/x*x]}', 'f:>p'),
         ('w::[1.0 2.0];b::3.0;n::0;loss::{n::n+1;:[n>%d;.undefinedfn(1);(+/w*w)+b*b]}', 'loss:>[w b]'),
+        # a parameter list naming a symbol twice: every occurrence is rebound, the user's value must come back
+        ('w::[1.0 2.0];b::3.0;n::0;loss::{n::n+1;:[n>%d;.undefinedfn(1);(+/w*w)+b*b]}', 'loss:>[w w]'),
+        ('w::[1.0 2.0];b::3.0;n::0;loss::{n::n+1;:[n>%d;.undefinedfn(1);(+/w*w)+b*b]}', 'loss:>[b w b]'),
         ('q::[1.0 2.0];n::0;g::{n::n+1;:[n>%d;.undefinedfn(1);x*x]}', 'q∂g'),
         ('w::[1.0 2.0];n::0;h::{n::n+1;:[n>%d;.undefinedfn(1);w*w]}', '[w]∂h'),
     ]
